@@ -12,7 +12,9 @@ from models import Some, NONE, Ok, Err, deref
 import c16_printf
 
 OPERANDS = ["644", "0644", "-644", "/222", "7777", "-7777", "000", "-000", "/000", "u=rw,go=r", "-u+w", "/a+x", "-+w", "+x", "=rw", "-=rwx", "/+w", "g=u", "u+s", "+t", "a=",
-            "-g-w", "u=rwx,g=rx,o=", "888", "u+", "x", "", "u=rw,", "-", "/", "a+X", "ug+rw", "o=g", "77777"]
+            "-g-w", "u=rwx,g=rx,o=", "888", "u+", "x", "", "u=rw,", "-", "/", "a+X", "ug+rw", "o=g", "77777",
+            # clauses that depend on an earlier clause of the same operand
+            "-a=rwx,o-w", "a=r,u=w", "u=rw,g=u", "a=rw,a-w", "/u=rwx,u-x", "u=r,g=u,u+w"]
 FILE_MODES = [0o0, 0o644, 0o600, 0o666, 0o755, 0o4755, 0o2070, 0o1777, 0o7777, 0o200, 0o020, 0o002, 0o111]
 
 
@@ -117,7 +119,7 @@ def ref_perm(operand):
         mask = 0
         for w in who or "a":
             mask |= {"u": 0o4700, "g": 0o2070, "o": 0o1007, "a": 0o7777}[w]
-        for op, perms in re.findall(r"([+=-])([rwxXst]*|[ugo])", mo.group(2)):
+        for op, perms in re.findall(r"([+=-])([ugo]|[rwxXst]*)", mo.group(2)):       # the copy form first: an empty permission list would match in front of it
             if perms in ("u", "g", "o"):
                 src = {"u": (mode >> 6) & 7, "g": (mode >> 3) & 7, "o": mode & 7}[perms]
                 bits = src * 0o111
